@@ -179,8 +179,9 @@ class Mem2RegPromotor(FunctionPass):
             phis = self.place_phi_nodes(stores, phi_ty, name, cfg_info)
 
             # Preserve debug info:
-            for phi in phis:
-                self.debug_db.map(alloc, phi)
+            if self.debug_db:
+                for phi in phis:
+                    self.debug_db.map(alloc, phi)
 
             # Create undefined value at start:
             initial_value = ir.Undefined(f"und_{name}", phi_ty)
